@@ -1,10 +1,10 @@
 #!/bin/sh
 # usage: tools/confirm_seed.sh C07 1   -- confirm a seeded change delivered in /tmp/seed/<ID>-out/
 # clean tree: demo passes; patched tree: demo fails and the 151-test baseline is unchanged.
-ID=$1; N=$2; OUT=/tmp/seed/$ID-out; WT=/var/tmp/confirm-$ID-$N; CWD=/var/tmp/confirm-cwd-$ID-$N
+SEEDROOT=${SEEDROOT:-/tmp/seed}; ID=$1; N=$2; OUT=$SEEDROOT/$ID-out; WT=/var/tmp/confirm-$ID-$N; CWD=/var/tmp/confirm-cwd-$ID-$N
 rm -rf $CWD; mkdir -p $CWD
 git -C /repo worktree add -q $WT HEAD || exit 2
-run_demo() { (cd $CWD && sed "s#/tmp/seed/$ID/#$WT/#g; s#/tmp/seed/$ID\b#$WT#g" $OUT/demo$N.py > $CWD/demo.py && if head -5 $CWD/demo.py | grep -q pytest; then RUN="/venv/bin/python -B -m pytest -q -p no:cacheprovider --timeout=600"; else RUN="/venv/bin/python -B"; fi; PYTHONPATH=$WT/src:/var/tmp/stubs timeout 900 $RUN $CWD/demo.py > $CWD/demo.log 2>&1; echo $?); }
+run_demo() { (cd $CWD && sed "s#$SEEDROOT/$ID/#$WT/#g; s#$SEEDROOT/$ID\b#$WT#g" $OUT/demo$N.py > $CWD/demo.py && if head -8 $CWD/demo.py | grep -q "twisted.trial"; then RUN="/venv/bin/python -B -m twisted.trial"; elif head -5 $CWD/demo.py | grep -q pytest; then RUN="/venv/bin/python -B -m pytest -q -p no:cacheprovider --timeout=600"; else RUN="/venv/bin/python -B"; fi; PYTHONPATH=$WT/src:/var/tmp/stubs timeout 900 $RUN $CWD/demo.py > $CWD/demo.log 2>&1; echo $?); }
 R1=$(run_demo)
 (cd $WT && git apply $OUT/change$N.diff) || { echo "PATCH DOES NOT APPLY"; git -C /repo worktree remove --force $WT; exit 2; }
 R2=$(run_demo)
